@@ -200,10 +200,11 @@ def check_nonkripke(inp):
     bads = {'None': None, 'str': 'K', 'int': 42, 'dict': {0: [0]}, 'list': [(0, 0)],
             'DiGraph': DiGraph(V=[0], E=[(0, 0)]), 'class': object}
     bad = bads[inp['what']]
-    for form in (fm.to_lib(f, L), fm.to_text(f)):
+    for form, kw in ((fm.to_lib(f, L), {}), (fm.to_text(f), {}), (fm.to_lib(f, L), {'F': [set([0])]}),
+                     (fm.to_text(f), {'F': []}), (fm.to_lib(f, L), {'parser': _guard_parser(checker)})):
         try:
             with core.quiet():
-                res = L.modelcheck(bad, form)
+                res = L.modelcheck(bad, form, **kw)
             return Failure('nonkripke', inp, 'TypeError', 'returned %r' % (res,))
         except TypeError:
             pass
